@@ -552,7 +552,9 @@ func randValueFor(rng *Rng, bt byte) proto.Value {
 			n := rng.Intn(4)
 			ss := make([]string, n)
 			for i := range ss {
-				ss[i] = randString(rng)
+				if rng.Intn(3) != 0 {
+					ss[i] = randString(rng)
+				}
 			}
 			return proto.SliceString(ss)
 		}
@@ -748,6 +750,10 @@ func genValidate(emit func(string), tier string, rng *Rng) {
 		both(one(mkField(1, basetype.String, proto.String(s))))
 		both(one(mkField(1, basetype.String, proto.String(s[:n-1]+"\x00"))))
 		both(one(mkField(1, basetype.String, proto.SliceString([]string{s[:n/2], s[n/2:]}))))
+		// empty elements next to non-empty ones: each still costs its terminator (seeded change C10-3)
+		both(one(mkField(1, basetype.String, proto.SliceString([]string{"", s[:n-4]}))))
+		both(one(mkField(1, basetype.String, proto.SliceString([]string{s[:n-5], "", "b"}))))
+		both(one(mkField(1, basetype.String, proto.SliceString([]string{"", "", s[:n-6], ""}))))
 		both(one(mkField(1, basetype.Byte, proto.SliceUint8(make([]byte, n)))))
 		both(one(mkField(1, basetype.Uint8, proto.SliceUint8([]byte(s)))))
 		if n%2 == 0 {
